@@ -62,7 +62,8 @@ def gen_table(rng, flavour=None):
         # a dependant whose reset runs a default factory (a user callback that may raise): the
         # set attribute is invalidated by attribute 1.  Exactly one dependant: the implementation
         # resets several dependants in set-iteration order, which the model does not have.
-        k2_attrs[4].update(default=None, factory=("set", []), inv_by=[1], decl="Attr")
+        k2_attrs[4].update(default=None, factory=("set", []), inv_by=[1], decl="Attr",
+                           prepare=rng.choice([None, ("id",)]))
         k2_attrs[7]["inv_by"] = []
     k2 = {"id": 2, "eager": rng.random() < 0.5, "frozen": k2_frozen, "attrs": k2_attrs,
           "post_copy": rng.choice([None, None, None, ("id",)])}
